@@ -39,6 +39,18 @@ MENU = {
 }
 
 
+# The code under test may treat particular errnos specially ("not supported here, carry on"): in the single-fault pass
+# every call is failed with *each* errno of this list, not only with the typical one above
+WIDE = [E.EIO, E.ENOSPC, E.EACCES, E.EPERM, E.EROFS, E.EINVAL, E.ENOTSUP, E.EDQUOT, E.EBADF, E.ENOENT, E.EBUSY, E.ENOMEM,
+        E.ENOSYS]
+# any other file-system call of the traced set that the code may come to use (fchmod, ftruncate, utime, chown, ...)
+OTHER_CALLS = [E.EPERM]
+NOT_FAILED = ('lstat', 'close')        # existence probes of the harness-visible kind; os.close is not a listed step
+
+
+LISTED_STEPS = ('open', 'chmod', 'fchmod', 'raw_write', 'fsync', 'fdatasync', 'raw_close', 'link', 'rename', 'replace')
+
+
 class BodyError(Exception):
     pass
 
@@ -102,6 +114,16 @@ def configs(tier):
         for dest in (False, True):
             for body in ('small', 'raises'):
                 out.append(dict(base, file_perms=0, umask=umask, dest_present=dest, body=body))
+    # "the permissions of the file it replaces", for less usual modes: no owner bits at all, a single bit, the sticky bit,
+    # and (where the process may set them: root) set-group-id / set-user-id modes
+    modes = [0o066, 0o004, 0o400, 0o1644, 0o777]
+    if os.geteuid() == 0:
+        modes += [0o2750, 0o4711]
+    for m in modes:
+        for umask in (0o022, 0):
+            for text in (False, True):
+                for body in ('small', 'large', 'raises'):
+                    out.append(dict(base, old_mode=m, umask=umask, text_mode=text, body=body))
     # one AtomicSaver object used for two saves in a row (the destination is chmod-ed to 0o611 in between): the second
     # save is the one explored
     for perms in (None, 0o600):
@@ -133,7 +155,7 @@ class Scenario:
             if self.cfg['dest_present']:
                 with open(self.dest, 'wb') as f:
                     f.write(OLD)
-                os.chmod(self.dest, OLD_MODE)
+                os.chmod(self.dest, self.cfg.get('old_mode', OLD_MODE))
             if self.cfg['part_present']:
                 with open(self.part, 'wb') as f:
                     f.write(FOREIGN)
@@ -156,7 +178,10 @@ class Scenario:
         nm = ev['name']
         alts = []
         path = ev['args'][0] if ev.get('args') and isinstance(ev['args'][0], str) else ev.get('path')
-        for en in MENU.get(nm, ()):
+        ens = list(MENU.get(nm, OTHER_CALLS if nm in envfaults.OSProxy.TRACED and nm not in NOT_FAILED else ()))
+        if self.cfg.get('wide') and ens:
+            ens += [en for en in WIDE if en not in ens]
+        for en in ens:
             if nm == 'open' and not (len(ev['args']) > 1 and ev['args'][1] & os.O_CREAT):
                 continue
             alts.append(('raise', en))
@@ -265,6 +290,13 @@ def judge(sc, env, exc, before, retry=True):
             out.append(('body exception swallowed', '%s propagates' % sc.body_exc.__name__, 'no exception'))
         if refused_expected and not (other and cfg['overwrite']):
             out.append(('refusal missing', 'OSError (overwrite disabled / part file exists)', 'save completed'))
+        # "the operating system reports an error at any step (creating or chmod-ing the part file, write, flush, fsync,
+        # close, link/rename) ... the caller receives an exception (never a silent failure)"
+        swallowed = [(env.points[i][0], errno.errorcode.get(a[1], a[1])) for i, a in env.fired
+                     if a[0] == 'raise' and env.points[i][0] in LISTED_STEPS]
+        if swallowed:
+            out.append(('OS error at a listed step swallowed: the save completed without an exception',
+                        'an exception', swallowed))
         if dest1 is None or dest1[1] != sc.new:
             out.append(('silent failure: no exception but destination is not the new content', sc.new[:40],
                         None if dest1 is None else dest1[1][:40]))
@@ -403,10 +435,15 @@ def run(ctx):
         cfgs = configs(ctx.tier)
         # the umask only matters for the final mode: deeper deviation bounds use the default umask
         core_cfg = [c for c in cfgs if c['umask'] == 0o022 and not c['text_mode']]
+        # the single-fault pass with every errno of WIDE at every call: the configurations that differ only in umask /
+        # requested mode share their error paths, so the wide pass uses the default umask
+        wide_cfg = [dict(c, wide=True) for c in cfgs if c['umask'] == 0o022 and c['file_perms'] != 0o664]
         if ctx.quick():
-            tasks = [(c, base, 1) for c in cfgs] + [(c, base, 2) for c in core_cfg if c['file_perms'] != 0o600]
+            tasks = [(c, base, 1) for c in cfgs] + [(c, base, 2) for c in core_cfg if c['file_perms'] != 0o600] \
+                + [(c, base, 1) for c in wide_cfg]
         else:
-            tasks = [(c, base, 2) for c in cfgs] + [(c, base, 3) for c in core_cfg]
+            tasks = [(c, base, 2) for c in cfgs] + [(c, base, 3) for c in core_cfg] \
+                + [(dict(c, wide=True), base, 1) for c in cfgs]
         ctx.rng.shuffle(tasks)
         total = inputs.run_shards(ctx, run_config, tasks, part='fault injection', rule=None)
         cov = ctx.coverage
@@ -415,7 +452,9 @@ def run(ctx):
                        'non-trivial = at least one deviation (injected errno, short write, or another process creating '
                        'the destination) actually fired')
         cov['bounds'] = {'deviations': '1 on all configurations, 2 on the default-umask binary ones' if ctx.quick() else '2 on all configurations, 3 on the default-umask binary ones', 'menu': {k: [errno.errorcode[e] for e in v]
-                                                                          for k, v in MENU.items()}}
+                                                                          for k, v in MENU.items()},
+                         'errnos of the wide single-fault pass (each at every call)': [errno.errorcode[e] for e in WIDE],
+                         'other traced calls': [errno.errorcode[e] for e in OTHER_CALLS]}
         cov['exhaustive'] = True
         ctx.assumptions += ['faults are injected only at the steps the statement lists (fdopen/fcntl excluded)',
                             'a fault after a successful publishing call counts as a completed save',
